@@ -543,7 +543,7 @@ class BoolVal(Contract):
         return False
 
     def post(self, c, r, b):
-        pubs = [e.var for e in c.g.trace if hasattr(e, "var") and e.var.kind == "pub"]
+        pubs = [e.var for e in c.g.trace[getattr(c, "call_start", 0):] if hasattr(e, "var") and e.var.kind == "pub"]
         d = {"V.value": isinstance(r, int) and formula(Eq(r, c.v(b))), "T.one_public_output": len(pubs) == 1}
         if len(pubs) == 1:
             d["S.tied"] = Implies(on(c), pubs[0].a == c.eva(b))
